@@ -13,6 +13,7 @@ import (
 	"manticheck/internal/codec"
 	"manticheck/internal/flow"
 	"manticheck/internal/prove"
+	"manticheck/internal/report"
 )
 
 // C02 — NTLMv1/NTLMv2 responses (DESIGN.md §4 C02; Appendix A rows C02.a–d).
@@ -59,6 +60,8 @@ func runC02(c *Ctx) {
 		"SPEC: MS-NLMP 3.3.1 (DESL key windows 0..6, 7..13, 14..15 + 5 zero bytes), 3.3.2 (NTOWFv2 upper-cases the user name only; NTProofStr = HMAC_MD5(ResponseKeyNT, ServerChallenge ‖ temp); response = NTProofStr ‖ temp), 2.2.2.7 (NTLMv2_CLIENT_CHALLENGE: 01 01 00×6, TimeStamp 8 LE, ChallengeFromClient 8, Reserved 4, AvPairs); hashcat mode 5600 line format user::domain:challenge:NTProofStr:blob",
 		"type-based aliasing; a slice header and its backing store are one cell",
 	}
+	r.Explanation += crySxExplain
+	r.Assumptions = append(r.Assumptions, crySxAssume, "when DESL is decided by evaluation, the NTHash field is taken to be 16 bytes (or empty, for Hash) and the ServerChallenge field 8 bytes long, as the constructors guarantee (lengths of caller-supplied values are listed under NOT decided)")
 	x := &c02{cry: newCry(c)}
 	x.w = prove.NewWorld(c.P)
 
@@ -80,6 +83,7 @@ func runC02(c *Ctx) {
 	x.guard(c02R1, "R1 analysis", "", x.r1)
 	x.guard(c02R2, "R2/R3/R4 analysis", "", x.r2r3r4)
 	x.guard(c02R5, "R5 analysis", "", x.r5)
+	x.sxDebugAll()
 	x.finish()
 
 	r.Floor(c02R1, 38)
@@ -681,7 +685,7 @@ func (x *c02) deslOrder(afn *ssa.Function, ret *ssa.Return, chains []*deslChain)
 	return false, "the response is " + strings.Join(got, " ‖ ") + ", not the three ciphertexts in the order of their key windows"
 }
 
-func (x *c02) desl(fn *ssa.Function, hashNeeds []need, hashWhat string) string {
+func (x *c02) deslSyn(fn *ssa.Function, hashNeeds []need, hashWhat string) string {
 	name := x.P.FuncName(fn)
 	// afn holds the chains: fn itself, or the shared DESL helper fn forwards to.
 	// lift maps a value of afn to the value of fn it stands for.
@@ -817,8 +821,23 @@ func (x *c02) r1() {
 		descs["LMResponse"] = x.desl(fLM, lmNeeds, "lm.LMHash(Password)")
 	}
 	sc := cryNTLMv1 + ": Hash / NTResponse / LMResponse agree"
-	if descs["Hash"] != "" && descs["Hash"] == descs["NTResponse"] && descs["Hash"] == descs["LMResponse"] {
+	und := 0
+	agreed := ""
+	for _, d := range descs {
+		switch {
+		case d == deslNotDecided:
+			und++
+		case agreed == "":
+			agreed = d
+		case d != agreed:
+			agreed = "\x00"
+		}
+	}
+	if descs["Hash"] != "" && descs["Hash"] == descs["NTResponse"] && descs["Hash"] == descs["LMResponse"] && und == 0 {
 		x.R.OK(c02R1, sc, "", "same chain descriptor "+descs["Hash"])
+	} else if und > 0 && agreed != "\x00" && (agreed != "" || und == len(descs)) {
+		x.R.OK(c02R1, sc, "", fmt.Sprintf("NOT DECIDED — %d of the three entry points could not be evaluated to the end (see their obligations); the others agree", und))
+		x.R.Note("NOT DECIDED: %s", sc)
 	} else {
 		x.R.Fail(c02R1, sc, "", fmt.Sprintf("the siblings' DESL descriptors differ or are unresolved: Hash=%q NTResponse=%q LMResponse=%q", descs["Hash"], descs["NTResponse"], descs["LMResponse"]))
 	}
@@ -833,6 +852,7 @@ func (x *c02) r1() {
 			x.R.Undecided(c02R1, name+": parameter roles", x.pos(fn.Pos()), why)
 		} else {
 			chal, pw := roleIdx(roles, "challenge"), roleIdx(roles, "password")
+			g := x.begin()
 			for i, want := range []struct {
 				l, other, what string
 			}{{x.e.Name(fLM), x.e.Name(fNT), "LM response = (*NTLMv1).LMResponse()"}, {x.e.Name(fNT), x.e.Name(fLM), "NT response = (*NTLMv1).NTResponse()"}} {
@@ -844,6 +864,9 @@ func (x *c02) r1() {
 					}, constsOnly)
 					x.verdict(c02R1, fmt.Sprintf("%s: result #%d %s", name, i, want.what), ret.Pos(), bad, und, trim(set.String(), 200))
 				}
+			}
+			if !g.clean() {
+				x.v1RespBySx(g, fn, chal, pw)
 			}
 		}
 	}
@@ -1179,19 +1202,19 @@ func (x *c02) r2r3r4() {
 		if len(fn.Params) != 5 {
 			x.R.Undecided(c02R2, x.P.FuncName(fn)+": signature", x.pos(fn.Pos()), "exported signature is no longer (domain, username, password, serverChallenge, clientChallenge)")
 		} else {
-			x.identity(v2site{fn: fn, user: isParam(1), dom: isParam(0), userW: "the username argument", domW: "the domain argument",
+			x.identityG(v2site{fn: fn, user: isParam(1), dom: isParam(0), userW: "the username argument", domW: "the domain argument",
 				domRule: c02DomAsIs, domWhy: c02DomWhy,
-				keyNeeds: []need{{what: "the password", src: isParam(2), must: []string{x.lNT}}}})
+				keyNeeds: []need{{what: "the password", src: isParam(2), must: []string{x.lNT}}}}, "new", 1, 0, 2)
 		}
 	}
 	// --- (*NTLMv2).Hash
 	if fn := x.mod(cryNTLMv2, "NTLMv2", "Hash"); fn != nil {
-		id := x.identity(v2site{fn: fn, user: isField(0, "Username"), dom: isField(0, "Domain"), userW: "the Username field", domW: "the Domain field",
+		id := x.identityG(v2site{fn: fn, user: isField(0, "Username"), dom: isField(0, "Domain"), userW: "the Username field", domW: "the Domain field",
 			domRule: c02DomAsIs, domWhy: c02DomWhy,
 			keyNeeds: []need{
 				{what: "the Password field", src: isField(0, "Password"), must: []string{x.lNT}, opt: true},
 				{what: "the NTHash field", src: isField(0, "NTHash"), opt: true},
-			}})
+			}}, "hash", -1, -1, -1)
 		x.proof(fn, 0, id, nil, isField(0, "ServerChallenge"), "the ServerChallenge field", isField(0, "ClientChallenge"), "the ClientChallenge field")
 	}
 	// --- ntlm.ntowfv2 / calculateNTLMv2Response / createNTLMv2Blob
@@ -1202,11 +1225,12 @@ func (x *c02) r2r3r4() {
 			x.R.Undecided(c02R2, x.P.FuncName(fOwf)+": parameter roles", x.pos(fOwf.Pos()), "cannot propagate user/password/domain from CreateAuthenticateMessage: "+why)
 		} else {
 			wire, wok := x.wireDomainCase()
-			x.identity(v2site{fn: fOwf, user: isParam(roleIdx(roles, "user")), dom: isParam(roleIdx(roles, "domain")),
+			x.identityG(v2site{fn: fOwf, user: isParam(roleIdx(roles, "user")), dom: isParam(roleIdx(roles, "domain")),
 				userW: "the user-name argument", domW: "the domain argument",
 				domCase: wire, domRule: "EncodeUTF16LE, same case mapping as the AUTHENTICATE DomainName payload",
 				domWhy:   fmt.Sprintf(" — the server computes NTOWFv2 over the DomainName it receives in the AUTHENTICATE message, which CreateAuthenticateMessage builds with case mapping {%s}; hashing a differently-cased domain yields a response the server rejects", shortAll(wire)),
-				keyNeeds: []need{{what: "the password", src: isParam(roleIdx(roles, "password")), must: []string{x.lNT}, allow: []string{"field.NTHash"}}}})
+				keyNeeds: []need{{what: "the password", src: isParam(roleIdx(roles, "password")), must: []string{x.lNT}, allow: []string{"field.NTHash"}}}},
+				"owf", roleIdx(roles, "user"), roleIdx(roles, "domain"), roleIdx(roles, "password"))
 			_ = wok
 		}
 	}
@@ -1222,7 +1246,7 @@ func (x *c02) r2r3r4() {
 }
 
 // proof checks R3 and R4 for the function whose result #ri is the NT response.
-func (x *c02) proof(fn *ssa.Function, ri int, id *idHMAC, roles map[int]string, sc func(flow.Source) bool, scW string, cc func(flow.Source) bool, ccW string) {
+func (x *c02) proofSyn(fn *ssa.Function, ri int, id *idHMAC, roles map[int]string, sc func(flow.Source) bool, scW string, cc func(flow.Source) bool, ccW string) {
 	name := x.P.FuncName(fn)
 	fOwf := x.P.Func(cryNTLM, "", "ntowfv2")
 	for _, ret := range cryptoSuccessReturns(fn) {
@@ -1640,13 +1664,13 @@ func (x *c02) layoutFixed(lfn, fn *ssa.Function, site *ssa.Call, val ssa.Value, 
 	}
 	switch {
 	case minLen < 28:
-		x.R.Fail(c02R4, hc, x.pos(lfn.Pos()), "the blob buffer is not provably at least 28 bytes long")
+		x.positively(c02R4, hc, x.pos(lfn.Pos()), report.Finding, "the blob buffer is not provably at least 28 bytes long")
 		return true
 	case bad != "":
-		x.R.Fail(c02R4, hc, x.pos(lfn.Pos()), bad+"; NTLMv2_CLIENT_CHALLENGE starts 01 01 00 00 00 00 00 00")
+		x.positively(c02R4, hc, x.pos(lfn.Pos()), report.Finding, bad+"; NTLMv2_CLIENT_CHALLENGE starts 01 01 00 00 00 00 00 00")
 		return true
 	case string(head) != string([]byte{1, 1, 0, 0, 0, 0, 0, 0}):
-		x.R.Fail(c02R4, hc, x.pos(lfn.Pos()), "the blob starts with "+hexOf(head)+"; NTLMv2_CLIENT_CHALLENGE starts 01 01 00 00 00 00 00 00")
+		x.positively(c02R4, hc, x.pos(lfn.Pos()), report.Finding, "the blob starts with "+hexOf(head)+"; NTLMv2_CLIENT_CHALLENGE starts 01 01 00 00 00 00 00 00")
 		return true
 	}
 	x.R.OK(c02R4, hc, x.pos(lfn.Pos()), "RespType 1, HiRespType 1, six reserved zero bytes (stored at fixed offsets of a zero-initialised buffer)")
@@ -1656,13 +1680,13 @@ func (x *c02) layoutFixed(lfn, fn *ssa.Function, site *ssa.Call, val ssa.Value, 
 	for i := 8; i < 16; i++ {
 		c := covering(i)
 		if len(c) != 1 || c[0].kind != "uint" || c[0].lo != 8 || c[0].hi != 16 {
-			x.R.Fail(c02R4, tc, x.pos(lfn.Pos()), fmt.Sprintf("byte %d of the blob is not part of one 8-byte integer written at offset 8; the TimeStamp is 8 bytes little-endian at offset 8", i))
+			x.positively(c02R4, tc, x.pos(lfn.Pos()), report.Finding, fmt.Sprintf("byte %d of the blob is not part of one 8-byte integer written at offset 8; the TimeStamp is 8 bytes little-endian at offset 8", i))
 			return true
 		}
 		ts = &c[0]
 	}
 	if ts.be {
-		x.R.Fail(c02R4, tc, x.pos(ts.at.Pos()), "the timestamp is written big-endian; the TimeStamp is 8 bytes little-endian")
+		x.positively(c02R4, tc, x.pos(ts.at.Pos()), report.Finding, "the timestamp is written big-endian; the TimeStamp is 8 bytes little-endian")
 		return true
 	}
 	x.R.OK(c02R4, tc, x.pos(ts.at.Pos()), "PutUint64 at offset 8, little-endian: "+flow.Expr(ts.val))
@@ -1672,7 +1696,7 @@ func (x *c02) layoutFixed(lfn, fn *ssa.Function, site *ssa.Call, val ssa.Value, 
 	for i := 16; i < 24; i++ {
 		c := covering(i)
 		if len(c) != 1 || c[0].kind != "copy" || c[0].lo != 16 {
-			x.R.Fail(c02R4, ccC, x.pos(lfn.Pos()), fmt.Sprintf("byte %d of the blob is not written by one copy to offset 16; the client challenge occupies bytes 16..23", i))
+			x.positively(c02R4, ccC, x.pos(lfn.Pos()), report.Finding, fmt.Sprintf("byte %d of the blob is not written by one copy to offset 16; the client challenge occupies bytes 16..23", i))
 			return true
 		}
 		cw = &c[0]
@@ -1697,7 +1721,7 @@ func (x *c02) layoutFixed(lfn, fn *ssa.Function, site *ssa.Call, val ssa.Value, 
 	for i := 24; i < 28; i++ {
 		for _, c := range covering(i) {
 			if !(c.kind == "byte" && c.k == 0) {
-				x.R.Fail(c02R4, rc, x.pos(c.at.Pos()), fmt.Sprintf("byte %d of the blob is written; Reserved3 is four zero bytes", i))
+				x.positively(c02R4, rc, x.pos(c.at.Pos()), report.Finding, fmt.Sprintf("byte %d of the blob is written; Reserved3 is four zero bytes", i))
 				return true
 			}
 		}
@@ -1708,7 +1732,7 @@ func (x *c02) layoutFixed(lfn, fn *ssa.Function, site *ssa.Call, val ssa.Value, 
 
 // ---- R5 ---------------------------------------------------------------------------
 
-func (x *c02) r5() {
+func (x *c02) r5Syn() {
 	fn := x.mod(cryNTLMv2, "NTLMv2", "ToHashcatString")
 	fHash := x.P.Func(cryNTLMv2, "NTLMv2", "Hash")
 	if fn == nil || fHash == nil {
